@@ -10,6 +10,8 @@ import pymbolic.primitives as p
 from ..core import Failure, Prop, Stream
 from ..oracles.pyeval import pyeval
 from ..sexp import A, dumps, exc_to_sx, expr_to_sx, loads, sx_to_expr
+from .c03_syntax import ExhaustiveSyntax, RandomSyntax
+from .c03_syntax import probes as syntax_probes
 
 BINOPS = {"add": op.add, "sub": op.sub, "mul": op.mul, "truediv": op.truediv,
           "floordiv": op.floordiv, "mod": op.mod, "pow": op.pow, "lshift": op.lshift,
@@ -424,14 +426,24 @@ def extract(ctx=None):
     return extract_operators(ctx)
 
 
+def extract_syntax(ctx=None):
+    """T-gen: `Expression.__getitem__`, `__call__`, `attr`, `a` (+ `_AttributeLookupCreator`),
+    `index`, `not_ / and_ / or_`, `eq … gt`, `__abs__`, `__le__ … __gt__`, `__iter__` and the field
+    lists of the node classes they build, regenerated from the live source into
+    lean/PV/Generated/OperatorsSyntax.lean (obligations `*_current` of PV.Properties.C03Syntax)"""
+    from extract.operators import extract_operators_syntax
+    return extract_operators_syntax(ctx)
+
+
 PROP = Prop(
     id="C03",
     title="Operator overloading builds trees that mean what the operators mean",
-    lean_targets=["PV.Properties.C03"],
+    lean_targets=["PV.Properties.C03", "PV.Properties.C03Syntax"],
     theorems=[],
-    extractors=[extract],
-    streams=[ExhaustiveOps(), RandomProgs(), Helpers(), OrderComparisons()],
-    probes=[probes],
+    extractors=[extract, extract_syntax],
+    streams=[ExhaustiveOps(), RandomProgs(), Helpers(), OrderComparisons(),
+             ExhaustiveSyntax(), RandomSyntax()],
+    probes=[probes, syntax_probes],
     trusted_base=[
         "Lean 4.33 kernel; axioms propext, Classical.choice, Quot.sound only",
         "CPython's binary-operator dispatch as modelled by `dispatch` in lean/PV/Model/Ops.lean "
@@ -440,9 +452,15 @@ PROP = Prop(
         "extract/operators.py (ast reader of the operator dunders, operand predicates, quotient and "
         "flatteners of pymbolic/primitives.py; unknown shapes are errors) and the table interpreter "
         "`opByTable` of lean/PV/Model/OpsTable.lean as the reading of such a table",
+        "the reader of the non-arithmetic syntax in extract/operators.py (SynReader: __getitem__, "
+        "__call__, attr / a, index, not_/and_/or_, eq…gt, __abs__, __le__…__gt__, __iter__; unknown "
+        "shapes and overrides in node classes are errors) and `c03SynCall` of "
+        "lean/PV/Model/OpsSyntaxTable.lean as the reading of such a table; the aggregates of "
+        "harness/props/c03_syntax.py (dict keyed by index tuples, Table, Rec, Fn, Obj) as the "
+        "environments that tell index / argument / attribute spellings apart",
     ],
     assumptions=["numpy scalars and registered constant classes are not modelled"],
-    level_text='Lean theorems for every overloaded operator (unbounded over operands and operator programs): the tree built by Python-style dispatch evaluates, wherever the plain computation on numbers is defined with an exact value, to a value == the plain one; over an arbitrary non-commutative ring the built tree equals the plain computation (no reordering). Three folds (x//1, x%1, 0**x) are proved false with concrete witnesses and kept as known findings. The hand-written operator model is proved (ops_eq_table_current, un_eq_table_current, truthy/preds/flatten/build_eq_table_current, for all operands) to be a generic decision-tree interpreter run on the table of every operator dunder of Expression/Sum/Product, the __bool__ of every node class, the operand predicates, quotient and the flatteners that extract/operators.py regenerates from the live source on every run; in addition it is tied to the code by the exhaustive (operator x left kind x right kind) table, invalid operands on either side, and random operator programs.',
+    level_text='Lean theorems for every overloaded operator (unbounded over operands and operator programs): the tree built by Python-style dispatch evaluates, wherever the plain computation on numbers is defined with an exact value, to a value == the plain one; over an arbitrary non-commutative ring the built tree equals the plain computation (no reordering). Three folds (x//1, x%1, 0**x) are proved false with concrete witnesses and kept as known findings. The hand-written operator model is proved (ops_eq_table_current, un_eq_table_current, truthy/preds/flatten/build_eq_table_current, for all operands) to be a generic decision-tree interpreter run on the table of every operator dunder of Expression/Sum/Product, the __bool__ of every node class, the operand predicates, quotient and the flatteners that extract/operators.py regenerates from the live source on every run; in addition it is tied to the code by the exhaustive (operator x left kind x right kind) table, invalid operands on either side, and random operator programs. The non-arithmetic syntax (subscript with every index shape, call with positional/keyword/mixed/empty arguments, attribute access in both spellings, not_/and_/or_, eq..gt, abs) has its own regenerated table (getitem/call/attr/attr_a/logical/cmp/abs_eq_table_current, syntax_impl_eq_table_current), per-construct soundness theorems against den (getitem_sound_partial, call_sound, attr_sound, not/and/or/cmp/abs_sound; x[()] -> x is excluded, witnessed and kept as a known finding) and two streams (exhaustive-small over index shapes x aggregates x contexts, random typed programs) that compare the built tree with the table-driven model and its value with the same program run on plain values in environments whose aggregates distinguish the index / argument / attribute spellings.',
     level_note='Trusted: Lean kernel; PyNum; the model of CPython binary-operator dispatch (validated exhaustively). Side conditions of the theorems are explicit Bool predicates (exact result for true division / constant-base power; integer-valued left operand for the //1 and %1 folds). numpy scalars and registered constant classes are not modelled. Also trusted: the ast reader extract/operators.py (unknown shapes are errors) and the reading of a table given by opByTable; CPython dispatch order and bool()/x-1 of float constants are hand-written and tied by correspondence only.',
     technique='Lean 4 per-operator soundness lemmas + program induction + ring-evaluation theorem; dunder decision trees regenerated from source (T-gen) and proved equal to the model; exhaustive differential correspondence of the dunder-method model',
     design_ref="DESIGN.md §4 C03",
